@@ -39,6 +39,9 @@ ASSUMPTIONS = [
     'the child is single-baton, so its call sequence is a function of the seed (checked: T equal across repetitions)',
     'default evaluator, default thread-safe store; the shim is armed only after the SqliteDataStore constructor returned',
     'PRAGMA integrity_check is recorded as a diagnostic only; the statement speaks of the read-mode view',
+    'in serial traces a simulated foreign process may hold the database exclusively for 3-31 virtual seconds across one '
+    'synchronisation (fault kind foreign_lock, the lock is real, the waiting is virtual): the retry path of the store runs '
+    'before the crash',
 ]
 COMPONENTS = {
     'real': ['whole artap stack in the dying child: algorithm, Evaluator, Job, SqliteDataStore, python sqlite3, libsqlite3, '
@@ -95,17 +98,31 @@ def _scenario(D, ackfd, kind, k, workdir):
     osi = SqliteDataStore.sync_individual
     osa = SqliteDataStore.sync_all
 
+    nsync = [0]
+
     def si(self, ind):
         me = sim.cur
         outer = depth.get(me, 0) == 0
         depth[me] = depth.get(me, 0) + 1
+        locked = False
         if outer:
             d = _digest(ind)
             send('s', ind.id, d)
+            nsync[0] += 1
+            if workers == 1 and D.flag('fault', ('cforeign', nsync[0]), 0.12):
+                # fault kind foreign_lock (serial traces): another process (a viewer, a backup) holds the database exclusively
+                # for 3 / 12 / 31 virtual seconds across this synchronisation - longer than the busy time-out in two cases of
+                # three, so the store's own retry path runs; a synchronisation that returns must still have written its row
+                hold = (3.0, 12.0, 31.0)[D.dec('fault', ('cforeign_hold', nsync[0]), 3)]
+                seams.take_foreign_lock(sim, path, hold)
+                locked = True
+                send('fl', hold)
         try:
             r = osi(self, ind)
         finally:
             depth[me] -= 1
+            if locked and sim.foreign_lock is not None:
+                seams.release_foreign_lock(sim)     # the foreign holder never outlives the operation it disturbed
         if outer:
             send('a', ind.id, d)
             sim.crash_point('sync_return')
@@ -363,6 +380,11 @@ def run_point(D, kind, k):
         if died:
             stats['crash_' + KINDS[kind]] = 1
             stats['crash'] = 1
+        nfl = sum(1 for r in recs if r and r[0] == 'fl')
+        if nfl:
+            stats['foreign_lock'] = nfl
+            if any(r[1] > 5.0 for r in recs if r and r[0] == 'fl'):
+                ctx.probe('foreign_lock_outlasting_busy_timeout')
         code2, out = _spawn(lambda fd: _judge_dir(workdir, recs, fd))
         try:
             verdict = json.loads(out.decode())
